@@ -48,11 +48,11 @@ ASSUMPTIONS = [
     "artists are inspected directly (no pixel comparison of charts); x-axis not judged when the limit is 0",
     "'any length' is decided at lengths straddling every zero-padding boundary in the frame naming",
 ]
-REQUIRED_COUNTERS = {"charts_checked": 40, "bars_checked": 300, "animation_runs": 8,
+REQUIRED_COUNTERS = {"two_step_renderings": 4, "charts_checked": 40, "bars_checked": 300, "animation_runs": 8,
                      "frames_decoded": 400, "plot_calls_checked": 400, "long_histories": 3}
 WORKERS = {"quick": 3, "thorough": 12}
 HARD_TIMEOUT_S = {"quick": 900, "thorough": 5400}
-NBITS = 11
+NBITS = 12
 
 
 def gen_cases(ctx):
@@ -77,6 +77,10 @@ def gen_cases(ctx):
     for i in range(ctx.scale(12, 250)):
         inst = gen.gen_instance(rng, None, max_jobs=3, max_machines=3, max_ops=10)
         yield {"kind": "animation_real", "instance": inst, "seed": rng.randrange(2**31)}
+    for i in range(ctx.scale(6, 100)):
+        yield {"kind": "animation_two_step", "length": rng.choice([5, 12, 30]),
+               "entry": ["function", "creator"][i % 2], "seed": rng.randrange(2**31),
+               "instance": {"cls": "animation"}}
 
 
 # ------------------------------------------------------------------ charts
@@ -361,6 +365,69 @@ def run_animation_real(ctx, case):
         (gen.fingerprint(case["instance"]), tuple(r.history), "real"))))
 
 
+def run_two_step(ctx, case):
+    """Frames kept on disk by an earlier rendering (remove_frames=False, fixed frames_dir)
+    must not leak into the animation of a later, different history of the same length."""
+    import imageio
+    from job_shop_lib.dispatching import HistoryObserver
+    from job_shop_lib.visualization import GanttChartCreator, create_gantt_chart_gif
+    rng = random.Random(case["seed"])
+    n = case["length"]
+    inst = long_instance(n, rng)
+    td = tempfile.mkdtemp(prefix="jsv-c20t-")
+    try:
+        frames_dir = os.path.join(td, "frames")
+        run = Run(inst)
+        hist_obs = HistoryObserver(run.d)
+        creator = None
+        if case["entry"] == "creator":
+            creator = GanttChartCreator(run.d, gif_config={
+                "gif_path": os.path.join(td, "c.gif"), "fps": 10, "frames_dir": frames_dir,
+                "remove_frames": False})
+        for episode in range(2):
+            if episode:
+                run.d.reset(); run.r.reset()
+            while not run.done():
+                o, m = run.choose(rng, "random_ready")
+                run.dispatch(o, m)
+            r = run.r
+            order = [o for o, _ in r.history]
+            shown = []
+
+            def plot(schedule, makespan=None, available_operations=None, current_time=None):
+                k = len(shown) + 1
+                ops_now = sorted((so.operation.operation_id, so.start_time, so.machine_id)
+                                 for lst in schedule.schedule for so in lst)
+                shown.append((ops_now, makespan))
+                # the stamp also encodes the episode so that stale frames are recognisable
+                return stamped_figure(k + 1024 * episode)
+
+            if creator is not None:
+                creator.partial_gantt_chart_plotter = plot
+                creator.create_gif()
+                path = os.path.join(td, "c.gif")
+            else:
+                path = os.path.join(td, f"f{episode}.gif")
+                create_gantt_chart_gif(run.instance, path, plot_function=plot, fps=10,
+                                       remove_frames=False, frames_dir=frames_dir,
+                                       schedule_history=list(hist_obs.history))
+            ctx.count("animation_runs")
+            ctx.count("two_step_renderings")
+            check_shown(ctx, r, order, shown, n, case["entry"] + f" episode {episode}")
+            frames = imageio.mimread(path, memtest=False)
+            codes = [decode(f) for f in frames]
+            ctx.count("frames_decoded", len(frames))
+            want = [k + 1024 * episode for k in range(1, n + 1)]
+            if codes != want:
+                ctx.violation("c20_stale_or_misordered_frames_in_second_rendering",
+                              {"episode": episode, "entry": case["entry"], "got": codes[:8],
+                               "want": want[:8], "n_frames": len(frames)})
+                break
+    finally:
+        shutil.rmtree(td, ignore_errors=True)
+    ctx.note_case(case, True, fingerprint=f"two:{n}:{case['entry']}:{case['seed']}")
+
+
 def run_case(ctx, case):
-    {"chart": run_chart, "animation": run_animation,
-     "animation_real": run_animation_real}[case["kind"]](ctx, case)
+    {"chart": run_chart, "animation": run_animation, "animation_real": run_animation_real,
+     "animation_two_step": run_two_step}[case["kind"]](ctx, case)
